@@ -439,6 +439,78 @@ fn families(thorough: bool) -> Vec<Prog> {
             names: vec![],
         });
     }
+    // ---- 6. after a construct that binds a name in its own scope, the name means the enclosing
+    //         declaration again - also for the checker: the enclosing value has another type and
+    //         is used by an operation of that type; at top level and with a parameter as the outer
+    let binders: Vec<(&str, String)> = vec![
+        ("for", "for N in [1, 2]~ { obs = N }".into()),
+        ("match type arm", "match nc { N: int => { obs = N }, => { }, }".into()),
+        ("if-set", "if N: int = nc { obs = N }".into()),
+        ("while-set", "while N: int = nc { obs = N; break }".into()),
+        ("parameter", "pf := (N: int) -> int { return N }; pf(1)".into()),
+        ("declaration in block", "{ N := 2; obs = N }".into()),
+        ("destructuring in block", "{ (N, zz) := (2, 3); obs = N }".into()),
+        ("function declaration in block", "{ N := () -> int { return 2 }; obs = N() }".into()),
+        ("module", "mq := mod { N := 2 }".into()),
+        ("map callback parameter", "[1]~ @ (N: int) -> int { return N } $]".into()),
+        ("reduce callback parameters", "[1]~ $ 0 (N: int, ww: int) -> int { return N + ww }".into()),
+        ("for in nested block", "{ for N in [1]~ { obs = N } }".into()),
+        ("nested for", "for N in [1]~ { for N in [2]~ { obs = N } }".into()),
+    ];
+    for n in &names {
+        for (bname, btext) in &binders {
+            let b = btext.replace('N', n);
+            let declared: Vec<&str> = [("pf :=", "pf"), ("mq :=", "mq")].iter().filter(|(k, _)| b.contains(k)).map(|(_, v)| *v).collect();
+            for (e1, form) in [("\"s\"", "constant"), ("id(\"s\") + \"\"", "run-time")] {
+                if form == "run-time" && e1.contains("id(") {
+                    // id returns any: bind through a typed function instead
+                }
+                let outer = if form == "constant" { format!("{n} := \"s\"") } else { format!("{n} := std.string.to_lowercase(\"S\")") };
+                let mut nm: Vec<&str> = vec![n];
+                nm.extend(declared.iter());
+                out.push(Prog {
+                    family: format!("typed use after binder: {bname} ({form} outer)"),
+                    stmts: pre(vec![outer, b.clone(), format!("{n} + \"b\"")]),
+                    expected: Some("\"sb\"".into()),
+                    names: with_names(&nm),
+                });
+                let _ = e1;
+            }
+            out.push(Prog {
+                family: format!("typed use after binder inside a function: {bname}"),
+                stmts: pre(vec![format!("wf := ({n}: string) -> any {{ {b}; return {n} + \"b\" }}"), "wf(\"s\")".into()]),
+                expected: Some("\"sb\"".into()),
+                names: with_names(&["wf"]),
+            });
+        }
+    }
+    // ---- 7. a module yields exactly its own top-level names, whatever statements it contains:
+    //         binders of every kind at its top level, with and without an enclosing name of the
+    //         same spelling
+    for n in &names {
+        for (bname, btext) in &binders {
+            if btext.contains("mq :=") || btext.contains("pf :=") {
+                continue;
+            }
+            let b = btext.replace('N', n);
+            for with_outer in [false, true] {
+                let mut extra = Vec::new();
+                let mut nm: Vec<&str> = vec!["mm"];
+                if with_outer {
+                    extra.push(format!("{n} := 10"));
+                    nm.push(n);
+                }
+                extra.push(format!("mm := mod {{ {b}; a := 1 }}"));
+                extra.push("mm == struct{ a := 1 }".into());
+                out.push(Prog {
+                    family: format!("module with a top-level binder yields only its declarations: {bname}{}", if with_outer { " (enclosing name of the same spelling)" } else { "" }),
+                    stmts: pre(extra),
+                    expected: Some("true".into()),
+                    names: with_names(&nm),
+                });
+            }
+        }
+    }
     out
 }
 
